@@ -6,6 +6,7 @@ import (
 	"encoding/xml"
 	"fmt"
 	"io"
+	"path"
 	"strconv"
 	"strings"
 
@@ -208,15 +209,22 @@ func (r *Reader) parseWorksheets() error {
 		// Find the sheet file path from relationships
 		target := r.sheetRels[sheetRef.RID]
 		if target == "" {
-			// Try default naming
+			if len(r.sheetRels) > 0 {
+				// The relationships part exists and does not declare this
+				// sheet: it names no part. A file-name guess would show
+				// another sheet's part (or an unreferenced one) under its name.
+				continue
+			}
+			// No relationships at all: try default naming
 			target = fmt.Sprintf("worksheets/sheet%d.xml", i+1)
 		}
 
-		// Normalize path
+		// Normalize path: targets are relative to xl/workbook.xml and may
+		// contain "." and ".." segments
 		if !strings.HasPrefix(target, "xl/") && !strings.HasPrefix(target, "/") {
 			target = "xl/" + target
 		}
-		target = strings.TrimPrefix(target, "/")
+		target = strings.TrimPrefix(path.Clean(target), "/")
 
 		data, err := r.getFileContent(target)
 		if err != nil {
